@@ -21,7 +21,7 @@ func init() {
 }
 
 // level configurations
-var c17Configs = []string{"nothing", "before", "after", "both", "spokfile", "spokfile+others", "spokdir", "near-miss-names"}
+var c17Configs = []string{"nothing", "before", "after", "both", "spokfile", "spokfile+others", "spokdir", "near-miss-names", "many-entries+spokfile", "dot-git"}
 
 type c17case struct {
 	Levels []int  `json:"levels"`        // config index per level, top first
@@ -63,6 +63,16 @@ func c17Build(base string, levels []int) []string {
 		case "spokdir":
 			_ = os.MkdirAll(filepath.Join(cur, "spokfile"), 0o755)
 			w("aaa", "")
+		case "many-entries+spokfile":
+			for k := 0; k < 40; k++ {
+				w(fmt.Sprintf("entry%03d", k), "")
+			}
+			w("spokfile", sf)
+			w("zzz", "")
+		case "dot-git":
+			_ = os.MkdirAll(filepath.Join(cur, ".git"), 0o755)
+			w(".git/config", "")
+			w("README", "")
 		case "near-miss-names":
 			w("Spokfile", sf)
 			w("spokfile.bak", sf)
@@ -299,27 +309,38 @@ func tailStr(xs []string, n int) []string {
 
 func c17Depths(c *core.Ctx) []int {
 	if c.Thorough() {
-		return []int{1, 2, 3, 4, 5}
+		return []int{1, 2, 3, 4}
 	}
-	return []int{1, 2, 3, 4}
+	return []int{1, 2, 3}
 }
 
+// c17Chains: every chain up to the tier's depth, plus a seeded sample one level deeper.
 func c17Chains(c *core.Ctx) [][]int {
 	var out [][]int
+	n := len(c17Configs)
 	for _, d := range c17Depths(c) {
 		total := 1
 		for i := 0; i < d; i++ {
-			total *= len(c17Configs)
+			total *= n
 		}
 		for idx := 0; idx < total; idx++ {
 			lv := make([]int, d)
 			x := idx
 			for i := d - 1; i >= 0; i-- {
-				lv[i] = x % len(c17Configs)
-				x /= len(c17Configs)
+				lv[i] = x % n
+				x /= n
 			}
 			out = append(out, lv)
 		}
+	}
+	deeper := c17Depths(c)[len(c17Depths(c))-1] + 1
+	r := c.Rng(core.StrKey("c17-deeper"))
+	for k := 0; k < c.Q(1500, 12000); k++ {
+		lv := make([]int, deeper)
+		for i := range lv {
+			lv[i] = r.Intn(n)
+		}
+		out = append(out, lv)
 	}
 	return out
 }
@@ -396,11 +417,12 @@ func c17Run(c *core.Ctx) bool {
 	cov := map[string]any{
 		"evaluations":         res.Evaluations,
 		"distinct_nontrivial": distinct,
-		"rule":                fmt.Sprintf("every directory chain of depth %v where each level independently holds one of %v (%d chains) x every start level x stop in {each level, an unrelated sibling directory, a directory below start, the directory above the chain}, each both directly and through a symbolic link to the chain's base; file.Find is called in-process with a counting logger and the find.iter hook enforcing the step bound (iterations <= path components of start + 1); a sample also runs the race-built binary (--show, HOME = stop, cwd = start). non-trivial = every (chain, start, stop) triple (distinct by construction) whose result was compared with the reference", c17Depths(c), c17Configs, len(chains)),
+		"rule":                fmt.Sprintf("every directory chain of depth %v (plus a seeded sample one level deeper) where each level independently holds one of %v (%d chains) x every start level x stop in {each level, an unrelated sibling directory, a directory below start, the directory above the chain}, each both directly and through a symbolic link to the chain's base; file.Find is called in-process with a counting logger and the find.iter hook enforcing the step bound (iterations <= path components of start + 1); a sample also runs the race-built binary (--show, HOME = stop, cwd = start). non-trivial = every (chain, start, stop) triple (distinct by construction) whose result was compared with the reference", c17Depths(c), c17Configs, len(chains)),
 		"samples":             res.Samples,
 		"counters":            res.Counters,
 		"chains":              res.Counters["chains"],
-		"exhaustive":          res.Counters["chains"] == int64(len(chains)) && len(deaths) == 0,
+		"exhaustive":          false,
+		"exhaustive_note":     "all chains up to the listed depths x all start/stop choices are enumerated; the deeper level is a seeded sample",
 		"worker_deaths":       len(deaths),
 	}
 	c.WriteEvidence("exploration", cov, []string{
